@@ -19,14 +19,14 @@ import (
 )
 
 type Call struct {
-	Kind   string
-	Route  string
-	DB     string
-	Coll   string
-	Names  []string
-	Pay    []string
-	Ts     uint64
-	Rep    bool
+	Kind  string
+	Route string
+	DB    string
+	Coll  string
+	Names []string
+	Pay   []string
+	Ts    uint64
+	Rep   bool
 }
 
 func (c Call) Term() string {
